@@ -730,4 +730,46 @@ Section AuthProofs.
     intros A A'. apply native_accept_iff in A as (_ & Hh & _).
     apply eth_sound in A' as (e & a & _ & _ & _ & _ & _ & _ & _ & _ & K). cbn in K. congruence.
   Qed.
+  (* ---------------- the chain id changes with the height ---------------- *)
+  Theorem native_other_chain_rejected ch1 ch2 t :
+    verify_native ch1 t = Accept -> ch2 <> ch1 -> verify_native ch2 t = RChainId.
+  Proof.
+    intros A Hne. apply native_accept_iff in A as (C & _).
+    unfold Model.verify_native, verify_native_h. rewrite beq_false; [reflexivity|]. congruence.
+  Qed.
+
+  Theorem eth_other_chain_rejected c1 c2 t v e :
+    decode_etx (from_hex (t_extra t)) = Some (v, e) -> protected_v (e_v e) = true ->
+    verify_eth c1 t = Accept -> c2 <> c1 -> verify_eth c2 t = RIllegal.
+  Proof.
+    intros D P A Hne. apply verify_eth_accept in A as (v' & e' & a & D' & S & _).
+    rewrite D in D'. inversion D'; subst v' e'.
+    destruct (eth_protected_sound c1 e a S P) as (E & _).
+    unfold Model.verify_eth, Model.eth_trace. rewrite D.
+    unfold Model.eth_sender. rewrite P. cbn [negb].
+    destruct (N.eqb_spec (derive_chain_id (e_v e)) c2) as [E2|E2]; [congruence|]. reflexivity.
+  Qed.
+
+  Notation verify_at := (verify_at sha256 keccak recover verify_sig).
+
+  (* a transaction accepted on one side of the fork is rejected on the other side (native: always;
+     Ethereum: for every payload with V outside {27, 28}) *)
+  Theorem fork_native c h1 h2 t :
+    t_type t <> eth_type -> verify_at c h1 t = Accept -> chain_id_at c h2 <> chain_id_at c h1 ->
+    verify_at c h2 t = RChainId.
+  Proof.
+    unfold Model.verify_at, Model.verify. intros T A Hne.
+    destruct (Z.eqb_spec (t_type t) eth_type); [contradiction|].
+    eapply native_other_chain_rejected; eauto.
+  Qed.
+
+  Theorem fork_eth c h1 h2 t v e :
+    t_type t = eth_type -> decode_etx (from_hex (t_extra t)) = Some (v, e) -> protected_v (e_v e) = true ->
+    verify_at c h1 t = Accept -> chain_n_at c h2 <> chain_n_at c h1 ->
+    verify_at c h2 t = RIllegal.
+  Proof.
+    unfold Model.verify_at, Model.verify. intros T D P A Hne.
+    destruct (Z.eqb_spec (t_type t) eth_type); [|contradiction].
+    eapply eth_other_chain_rejected; eauto.
+  Qed.
 End AuthProofs.
